@@ -5,6 +5,7 @@ import (
 	"go/token"
 	"go/types"
 	"golang.org/x/tools/go/ssa"
+	"sort"
 	"strings"
 
 	"iocvet/internal/absint"
@@ -467,6 +468,33 @@ func freshObject(c *core.Ctx, v ssa.Value, depth int) bool {
 	case *ssa.Phi:
 		for _, e := range x.Edges {
 			if !freshObject(c, e, depth) {
+				return false
+			}
+		}
+		return true
+	case *ssa.Parameter:
+		// the parameter of a function literal (an option applied to an object under construction): every call that
+		// can reach the literal on the call graph hands it a freshly made object
+		fn := x.Parent()
+		if fn == nil || fn.Parent() == nil {
+			return false
+		}
+		idx := -1
+		for i, p := range fn.Params {
+			if p == x {
+				idx = i
+			}
+		}
+		node := c.CG().Nodes[fn]
+		if node == nil || idx < 0 || len(node.In) == 0 {
+			return false
+		}
+		for _, e := range node.In {
+			if e.Site == nil {
+				return false
+			}
+			args := e.Site.Common().Args
+			if idx >= len(args) || !freshObject(c, args[idx], depth+1) {
 				return false
 			}
 		}
@@ -1060,7 +1088,43 @@ func globalSettingsRules(c *core.Ctx, r *core.Report, rule string) {
 			}
 		}
 		if g == nil {
-			bad = "no package-level list is written"
+			// the list is kept in a package-level object: some list reachable from the package's variables must hold
+			// exactly what was given
+			var lists []string
+			found := false
+			if fn.Pkg != nil {
+				var names []string
+				for n := range fn.Pkg.Members {
+					names = append(names, n)
+				}
+				sort.Strings(names)
+				for _, n := range names {
+					gv, isG := fn.Pkg.Members[n].(*ssa.Global)
+					if !isG {
+						continue
+					}
+					var walk func(v absint.Value, depth int)
+					walk = func(v absint.Value, depth int) {
+						switch x := v.(type) {
+						case *absint.List:
+							if len(x.Elems) > 0 {
+								lists = append(lists, absint.Show(x))
+								found = found || absint.Show(x) == "[o1 o2 o3 o1]"
+							}
+						case *absint.Tok:
+							if depth < 2 {
+								for _, fv := range x.Fields {
+									walk(fv, depth+1)
+								}
+							}
+						}
+					}
+					walk(ip.GlobalValue(gv), 0)
+				}
+			}
+			if !found {
+				bad = fmt.Sprintf("no package-level list holds [o1 o2 o3 o1] after Settings(o1,o2); Settings(o3); Settings(o1); Settings() (lists found: %v)", lists)
+			}
 		} else {
 			got = absint.Show(ip.GlobalValue(g))
 			if got != "[o1 o2 o3 o1]" {
